@@ -73,6 +73,17 @@ def base_specs():
         E("pipe", f=0, to=1, u=4.0, index=0), E("heat_exchanger", f=1, to=2, index=0), E("pipe", f=3, to=4, u=4.0, index=1),
         E("heat_consumer", f=4, to=5, mdot=0.7, qext_w=9000.0, index=0), E("press_control", f=1, to=2, cj=2, index=0)],
         "flags": [("elem", 0), ("elem", 1), ("elem", 3), ("elem", 6)]})
+    # stand-by feeders: an out-of-service circulation pump next to a working one of the same kind
+    S.append({"name": "w_circ_standby", "fluid": "water", "nj": 4, "mode": "sequential", "elems": [
+        E("circ_pump_pressure", ret=3, flow=0, index=0), E("circ_pump_pressure", ret=3, flow=0, index=1, t_flow=345.0),
+        E("pipe", f=0, to=1, u=5.0, index=0), E("pipe", f=2, to=3, u=5.0, index=1),
+        E("heat_consumer", f=1, to=2, mdot=1.0, qext_w=20000.0, index=0), E("heat_consumer", f=1, to=2, mdot=0.5, qext_w=10000.0, index=1)],
+        "flags": [("elem", 0), ("elem", 1), ("elem", 5)]})
+    S.append({"name": "w_circ_mass_standby", "fluid": "water", "nj": 4, "mode": "sequential", "elems": [
+        E("circ_pump_mass", ret=3, flow=0, index=0), E("circ_pump_mass", ret=3, flow=0, index=1, mdot=0.9),
+        E("pipe", f=0, to=1, u=5.0, index=0), E("pipe", f=2, to=3, u=5.0, index=1),
+        E("heat_exchanger", f=1, to=2, index=0), E("valve", j=1, el=2, et="ju", index=0)],
+        "flags": [("elem", 0), ("elem", 1), ("elem", 5, "opened")]})
     return S
 
 
@@ -198,7 +209,7 @@ def jobs(tier, seed):
     rng = random.Random(4000 + seed)
     bases = base_specs()
     if tier == "quick":
-        bases = bases[:6]
+        bases = bases[:8]
     for s in bases:
         k = len(s["flags"])
         allp = list(itertools.product([True, False], repeat=k))
@@ -211,6 +222,8 @@ def jobs(tier, seed):
                 continue        # the sink at junction 3 needs one complete supply path
             if s["name"] == "w_two_loops" and bits[0] and not (bits[2] or bits[3]):
                 continue        # first loop without any path for the prescribed flow (ill-posed)
+            if s["name"] in ("w_circ_standby", "w_circ_mass_standby") and bits[0] == bits[1]:
+                continue        # exactly one of the two pumps works (two working ones over-determine the loop)
             if s["name"] == "w_loop_seq" and not (bits[0] or bits[1] or bits[3]):
                 continue        # no consumer at all: the pump's flow is undetermined (ill-posed, not a C04 case)
             out.append({"name": "%s/%s" % (s["name"], "".join("1" if b else "0" for b in bits)), "spec": s, "bits": list(bits),
